@@ -61,7 +61,7 @@ class Engine:
         else:
             k = T.draw(5)
         if k == 4:
-            sc = self.c.gen(T, "C15", tier, ctx)
+            sc = self.c.gen(T, "C15", tier, ctx, allow_interrupt=True)
             sc["_via"] = "cli"
             sc["prop"] = "C14"
             if sc["interrupt"] is None:
@@ -91,8 +91,7 @@ class Engine:
                     "C15.1:line_count", "C15.3:o_names", "C15.3:o_data",
                     "C15.3:O_unreadable", "C15.3:O_header", "C15.3:O_data",
                     "C15.3:join_data")
-                if not c14_matter or (not delivered
-                                      and not sig.startswith("C15.4")):
+                if not c14_matter or not delivered:
                     out["violation"] = None
                     out["probes"]["cli_violation_not_c14_matter"] = 1
                     return out
